@@ -158,3 +158,135 @@ def skip_zero_iterations(fdef):
                 return None
         return state
     return step
+
+
+# ---- role-based identification of local variables (rules never depend on the spelling of a local name)
+def assigned_names(fdef, pred):
+    """names `n` with a simple assignment `n = <value>` in fdef (nested defs excluded) whose value satisfies pred(value)"""
+    out = []
+    for s in walk_no_nested(fdef):
+        if isinstance(s, ast.Assign) and len(s.targets) == 1 and isinstance(s.targets[0], ast.Name) and pred(s.value):
+            if s.targets[0].id not in out:
+                out.append(s.targets[0].id)
+    return out
+
+
+def returned_names(fdef):
+    """list (per return statement, in source order) of the tuple of returned element sources"""
+    out = []
+    for r in sorted((r for r in walk_no_nested(fdef) if isinstance(r, ast.Return) and r.value is not None), key=lambda r: r.lineno):
+        v = r.value
+        out.append(tuple(src(e) for e in v.elts) if isinstance(v, ast.Tuple) else (src(v),))
+    return out
+
+
+def is_call_to(e, *names):
+    """e is a call whose callee's last dotted component is one of names"""
+    return isinstance(e, ast.Call) and (last_name(dotted(e.func)) in names)
+
+
+def loop_targets(node):
+    """names bound by a For / comprehension target"""
+    return [n.id for n in ast.walk(node) if isinstance(n, ast.Name)]
+
+
+def enclosing_loops(fdef, node):
+    """For statements (outermost first) of fdef whose body contains `node`"""
+    out = []
+
+    def rec(stmts, chain):
+        for s in stmts:
+            if s is node or any(x is node for x in ast.walk(s)):
+                if isinstance(s, ast.For):
+                    chain = chain + [s]
+                for fld in ('body', 'orelse', 'finalbody', 'handlers'):
+                    sub = getattr(s, fld, None)
+                    if sub:
+                        r = rec([h for h in sub] if fld != 'handlers' else [x for h in sub for x in h.body], chain)
+                        if r is not None:
+                            return r
+                return chain
+        return None
+    return rec(fdef.body, []) or out
+
+
+def rename_names(node, mapping):
+    """copy of an AST with Name ids substituted (to compare code modulo the spelling of locals)"""
+    import copy
+    new = copy.deepcopy(node)
+    for n in ast.walk(new):
+        if isinstance(n, ast.Name) and n.id in mapping:
+            n.id = mapping[n.id]
+    return new
+
+
+def src_canon(node, mapping):
+    return src(rename_names(node, mapping))
+
+
+def pred_is(test, spec, names, bools=(), consts=()):
+    """True iff the comparison predicate `test` equals spec(env) on every assignment of small integers / booleans.
+    names: {source text of a sub-expression: symbol}; symbols whose spec value is boolean are listed in `bools`.
+    Independent of how the predicate is spelled (operand order, negation placement, and/or nesting)."""
+    from .domains import check_pred
+    from .index import AnalysisError
+    num_syms = sorted({v for v in names.values() if v not in bools})
+    try:
+        n, bad = check_pred(test, spec, symbols=num_syms, atom_name=lambda x: names.get(src(x)), extra_bools=list(bools), extra_consts=consts)
+    except AnalysisError:
+        return False
+    except Exception:
+        return False
+    return not bad
+
+
+def eval_local(fdef, name, env, methods=None, stop_at=None):
+    """Constant value of local `name` of fdef under the attribute/parameter environment `env` ({'self.x': v, 'param': v}), interpreting the
+    statements of the function in order (assignments, if/else with foldable tests, try bodies); a value coming from a call of a method
+    `self.m(...)` is obtained by interpreting that method (`methods`: name -> FunctionDef).  Returns TOP when not a constant.
+    Independent of whether the value is written as conditional expression, if/else chain or a private helper."""
+    from .consteval import Evaluator, Unfoldable, TOP, run_function
+    methods = methods or {}
+
+    def hook(ev, call, scope):
+        if isinstance(call.func, ast.Attribute) and isinstance(call.func.value, ast.Name) and call.func.value.id == 'self' and call.func.attr in methods:
+            m = methods[call.func.attr]
+            args = [ev.ev(a, scope) for a in call.args]
+            kwargs = {k.arg: ev.ev(k.value, scope) for k in call.keywords if k.arg}
+            static = any(isinstance(d, ast.Name) and d.id == 'staticmethod' for d in m.decorator_list)
+            return run_function(m, args if static else [None] + args, kwargs, env={k: v for k, v in env.items() if '.' in k})
+        return NotImplemented
+    ev = Evaluator({}, call_hook=hook)
+    scope = dict(env)
+    done = [False]
+
+    def block(stmts):
+        for s in stmts:
+            if done[0]:
+                return
+            if stop_at is not None and any(x is stop_at for x in ast.walk(s)) and not isinstance(s, (ast.If, ast.Try, ast.With, ast.For, ast.While)):
+                done[0] = True
+                return
+            if isinstance(s, ast.Assign) and len(s.targets) == 1 and isinstance(s.targets[0], ast.Name):
+                try:
+                    scope[s.targets[0].id] = ev.ev(s.value, scope)
+                except Unfoldable:
+                    scope[s.targets[0].id] = TOP
+            elif isinstance(s, ast.If):
+                try:
+                    c = ev.ev(s.test, scope)
+                except Unfoldable:
+                    c = TOP
+                if c is TOP:
+                    touched = {n.id for x in s.body + s.orelse for n in ast.walk(x) if isinstance(n, ast.Name) and isinstance(n.ctx, ast.Store)}
+                    for t in touched:
+                        scope[t] = TOP
+                else:
+                    block(s.body if c else s.orelse)
+            elif isinstance(s, ast.Try):
+                block(s.body)
+            elif isinstance(s, ast.With):
+                block(s.body)
+    block(fdef.body)
+    v = scope.get(name, TOP)
+    return v
